@@ -269,7 +269,7 @@ def u_container_errors(root, only_kind=None, only_axis="any"):
     errv = {"abs": z3.Function("error_abs", Ref, PA), "rel": z3.Function("error_rel", Ref, PA)}
     mats = {k_: z3.Function(k_, Ref, MA) for k_ in ("cov_mat", "cov_mat_rel", "cor_mat")}
     isrel = z3.Function("is_relative", Ref, B)
-    eng.lib["np.allclose"] = lambda e, st, a, kw, node: VBool(z3.ForAll([i], z3.Implies(z3.And(0 <= i, i < a[1].len), a[1].arr[i] == a[0].real())))      # exact agreement (allclose's tolerance collapses almost-equal vectors: stated)
+    eng.lib["np.allclose"] = lambda e, st, a, kw, node: VBool(z3.ForAll([i], z3.Implies(z3.And(0 <= i, i < a[1].len), a[1].arr[i] == a[0].real())))
     for cls in ("GaussianErrorBase", "SimpleGaussianError", "MatrixGaussianError"):
         mk(eng, cls, "relative", "getter", result=lambda vw: VBool(isrel(vw.self.e)))
         mk(eng, cls, "error", "getter", result=lambda vw: VSeq(errv["abs"](vw.self.e), n))
@@ -430,6 +430,13 @@ def u_fit(root):
         def vattr(self, e, st, name):
             if name == "_model_function_object":
                 return M("reloaded-model-function")
+            if name in ("density", "bin_evaluation"):
+                return M("stored-" + name)
+            if name == "has_errors":
+                return VBool(z3.Bool("read_model_declares_uncertainties"))
+
+        def vsetattr(self, e, st, name, v):
+            push(st, "pm_set", (name, v))
     eng.lib["r:model._make_object"] = lambda e, st, a, kw, n: (push(st, "read", ("model", a[0], dict(kw))), PM())[1]
     eng.lib["r:constraint._make_object"] = lambda e, st, a, kw, n: (push(st, "read", ("constraint", a[0], dict(kw))), M("reloaded-constraint:%d" % len([x for x in st.ghost.get("read", ()) if x[0] == "constraint"])))[1]
     eng.lib["_parse_function"] = lambda e, st, a, kw, n: M("parsed-function")
@@ -487,6 +494,16 @@ def u_fit(root):
                                 z3.BoolVal(len(r_c) == 1 and as_s(r_c[0][1].d.get("type")) == "dataset-doc" and as_s(r_c[0][2].get("default_type")) == tname and len(r_m) == 1 and as_s(r_m[0][1].d.get("type")) == "model-doc" and
                                            is_m(r_m[0][2].get("dataset"), "reloaded-container") and len(a_) == 2 and is_m(a_[0], "reloaded-container") and is_m(a_[1], "reloaded-model-function"))))
                     out.append(("the parametric model that was read (with its parameter values and model-side sources) replaces the constructor's own", z3.BoolVal(any(m_ == "set:_param_model" and isinstance(x_[0], PM) for m_, x_, k2 in tr))))
+                if cls != "CustomFit":
+                    wired = [v_ for n_, v_ in vw.post.ghost.get("pm_set", ()) if n_ == "_on_error_change_callback"]
+                    calls = [m_ for m_, x_, k2 in tr]
+                    told = "_on_error_change" in calls and "set:_param_model" in calls and calls.index("_on_error_change") > calls.index("set:_param_model")
+                    out.append(("the model that was read reports changes of its uncertainty sources to the new fit", z3.BoolVal(len(wired) == 1 and isinstance(wired[0], VBound) and wired[0].name == "_on_error_change" and isinstance(wired[0].recv, VExternal) and wired[0].recv.name == "reloaded-fit")))
+                    out.append(("model-side sources that were read enter the new fit's cost: the fit is told about them after the model is installed (an implicit no-errors chi2 is replaced there)",
+                                z3.Implies(z3.Bool("read_model_declares_uncertainties"), z3.BoolVal(told))))
+                if cls == "HistFit":
+                    out.append(("a histogram fit is constructed with the stored density / bin-evaluation settings (they govern every parametric model the fit builds later)",
+                                z3.BoolVal(is_m(kw.get("density"), "stored-density") and is_m(kw.get("bin_evaluation"), "stored-bin_evaluation"))))
                 cf = kw.get("cost_function")
                 out.append(("cost function: the stored identifier, or the function re-created from the stored code", z3.BoolVal(bool((as_s(cf) == "known_id") if ident else is_m(cf, "parsed-function")))))
                 out.append(("same minimizer and minimizer options", z3.BoolVal(as_s(kw.get("minimizer")) == "the-minimizer" and isinstance(kw.get("minimizer_kwargs"), VDict) and set(kw["minimizer_kwargs"].d) == {"tolerance"})))
